@@ -32,7 +32,7 @@ def tasks(tier):
     for a, b in (("Equals", "Equals"), ("Equals", "FuncDep"), ("FuncDep", "FuncDep")):
         t += [_tm.T(f"typeorder/mirror[{a},{b}]/relative", mro_c.t_mirror(a, b, "relative", unfold=1))]
     t += [_tm.T("FuncDependentType.__lt__/wildcards", mro_c.t_funcdep_lt)]
-    t += _tm.resolve_tasks(tier) + _tm.resolve_unbounded_tasks() + _tm.wrap_tasks()
+    t += _tm.resolve_tasks(tier) + _tm.resolve_unbounded_tasks() + _tm.wrap_tasks() + _tm.register_unbounded_tasks()
     return t
 
 
